@@ -93,6 +93,8 @@ type frame struct {
 	loopOrd  map[*ssa.BasicBlock]int
 	entryArgs []Term
 	mapKV     *[2]tv
+	lastLoadHW string
+	lastLoadBase string
 	witness   map[string]string
 }
 
@@ -542,7 +544,10 @@ func (fr *frame) load(lv *lval, st *State) Term {
 	switch lv.kind {
 	case lvField, lvCell:
 		k := vc.kinds[lv.key]
-		return Term{fmt.Sprintf("(select %s %s)", vc.cur(st, lv.key), lv.base.S), k.Val}
+		ver := vc.cur(st, lv.key)
+		fr.lastLoadHW = vc.verHW[ver]
+		fr.lastLoadBase = lv.base.S
+		return Term{fmt.Sprintf("(select %s %s)", ver, lv.base.S), k.Val}
 	case lvStruct:
 		return fr.loadStruct(lv.base, lv.elemT, st)
 	case lvElem:
@@ -792,8 +797,15 @@ func (fr *frame) oblige(kind, sub, anchor string, st *State, goal string, desc s
 	}
 	vc.obls = append(vc.obls, ob)
 	// after checking, assume it (conversions are modelled exactly instead)
-	if !(kind == "safe" && strings.HasPrefix(anchor, "convert:")) {
+	if !(kind == "safe" && strings.HasPrefix(anchor, "convert:")) && kind != "decreases" {
+		ob.AssumeIdx = len(vc.facts)
+		before := len(vc.facts)
 		vc.fact(implies(st.reach, goal))
+		if len(vc.facts) == before {
+			ob.AssumeIdx = -1
+		}
+	} else {
+		ob.AssumeIdx = -1
 	}
 }
 
